@@ -297,6 +297,15 @@ async def sim_run(args, universal_newlines=False, errors=None, check=False, shel
         await asyncio.sleep(d / 2)
         SIM.point("run-before:%d" % n)
         cp = subprocess.run(args, shell=shell, stdin=subprocess.DEVNULL, **kwargs)
+        # seam for "the world moves on right after this command" (e.g. upstream
+        # gets a new commit between `git ls-remote` and the later fetch)
+        for h in SIM.cfg.get("after_run_hooks", []):
+            if h["match"] in " ".join(str(a) for a in (args if not shell else [args])) and not h.get("used"):
+                h["used"] = True
+                import importlib
+                mod, _, fn = h["call"].partition(":")
+                SIM.log("world-hook", loop.time(), h["call"])
+                getattr(importlib.import_module(mod), fn)(h.get("arg"))
         await asyncio.sleep(d / 2)
         SIM.log("run-end", loop.time(), n, desc, cp.returncode)
         stdout, stderr = cp.stdout, cp.stderr
